@@ -153,7 +153,7 @@ def _change_case(draw, daily_keyword=False):
             shift = draw(_INT_SHIFT)
     else:
         shift = None
-    if f == 365 and shift in ("yoy", "soy", "eopy", "tty") and (daily_keyword or draw(st.booleans())):
+    if f == 365 and shift in ("yoy", "soy", "eopy", "tty") and ((daily_keyword and shift != "tty") or draw(st.booleans())):
         # place the series around a year boundary so that keyword shifts bite
         import datetime as dt
         y = dt.date.fromordinal(x["start"]["o"]).year
@@ -418,9 +418,68 @@ def _check_cum(case):
     return None
 
 
+# ---------------------------------------------------------------------------
+# forward cumulation with keyword shifts inverts the change with the same keyword
+# ---------------------------------------------------------------------------
+
+@st.composite
+def _cumkw_case(draw):
+    fn = draw(st.sampled_from(FLEX))
+    f = draw(st.sampled_from([x for x in refcal.ALL if x not in (0, 365)]))
+    shift = draw(st.sampled_from(["yoy", "soy", "eopy", "tty"]))
+    x = draw(rs.series_desc(freq=f, min_len=2, max_len=3 * max(f, 2) + 2, positive=True, nan_prob=False, margin_years=5))
+    return {"x": x, "fn": fn, "shift": shift, "form": draw(st.sampled_from(["method", "function"])),
+            "span_kind": draw(st.sampled_from(["explicit", "default"]))}
+
+
+def _classify_cumkw(case):
+    x = case["x"]
+    labels = [f"fn_{case['fn']}", f"shift_{case['shift']}", f"freq_{refcal.LETTER[x['f']]}", f"span_{case['span_kind']}"]
+    return len(x["rows"]) > x["f"], labels          # crosses a year boundary
+
+
+def _check_cumkw(case):
+    ir = _ir()
+    col = Collector()
+    xr = rs.ref_from_desc(case["x"])
+    f, fn, shift = xr.f, case["fn"], case["shift"]
+    if fn == "pct" and shift == "tty":
+        return {"labels": ["pct_tty_not_judged"], "nontrivial": False}     # see ASSUMPTIONS: missing at start-of-year periods
+    x = rs.build(xr)
+    c = api(f"{fn}:function", getattr(ir, fn), x, shift)
+    cr = rs.read(c, f)
+    csp = cr.span()
+    if csp is None:
+        return {"labels": ["empty_change"], "nontrivial": False}
+    S, T = csp[0], xr.span()[1]
+    if any(math.isnan(cr.get(t, v)) for t in range(S, T + 1) for v in range(xr.nv)):
+        return {"labels": ["change_with_missing_cells_not_judged"], "nontrivial": False}
+    kwargs = {"initial": x}
+    if case["span_kind"] == "explicit":
+        kwargs["span"] = ir.Span(rs.period_at(f, S), rs.period_at(f, T))
+    name = f"cum_{fn}"
+    if case["form"] == "method":
+        y = c.copy()
+        api(f"{name}:method", getattr(y, name), shift, **kwargs)
+    else:
+        y = api(f"{name}:function", getattr(ir, name), c, shift, **kwargs)
+    got = rs.read(y, f)
+    for t in range(S, T + 1):
+        for v in range(xr.nv):
+            xv, yv = xr.get(t, v), got.get(t, v)
+            if not rs.close(xv, yv, 1e-9, 1e-12):
+                col.fail(f"{name}:keyword:{shift}:inversion",
+                         f"{name}({fn}(x,{shift!r}),{shift!r},initial=x,span={kwargs.get('span')!r}) at "
+                         f"{pgen.describe(pgen.from_index(f, t))} v{v}: got {yv!r}, original {xv!r}")
+                col.done()
+    col.done()
+    return {"labels": ["keyword_inversion_checked"], "nontrivial": len(case["x"]["rows"]) > f}
+
+
 SUBCHECKS = [
     HypSub("changes", _change_case, _check_change, _classify_change, budget={"quick": 2500, "thorough": 60000}),
     HypSub("changes_daily_keyword", lambda: _change_case(daily_keyword=True), _check_change, _classify_change, budget={"quick": 500, "thorough": 12000}),
     HypSub("helpers", _helper_case, _check_helper, _classify_helper, budget={"quick": 600, "thorough": 10000}),
     HypSub("cumulation", _cum_case, _check_cum, _classify_cum, budget={"quick": 2500, "thorough": 60000}),
+    HypSub("cumulation_keyword", _cumkw_case, _check_cumkw, _classify_cumkw, budget={"quick": 800, "thorough": 20000}),
 ]
